@@ -3,11 +3,24 @@ C15 — Ritz eigenvalues are upper bounds that can only improve when terms are a
 The closed-form clause (lower bound by / convergence to the double-sine solutions) is a statement about the
 continuum problem and is NOT decided here (see DESIGN.md section 6); tools/props/C15.py evaluates it numerically
 for the record, labelled a test.
+
+Second part of the file (from `eigenvalues_eq_minmax` on): the Courant–Fischer theorem is no longer assumed.
+`Spec/CourantFischer.lean` proves it from Mathlib's spectral theorem — for the standard symmetric problem, for the
+generalised pencil `K v = λ M v` with `M` positive definite, and for the buckling pencil `(K + λ KG) v = 0` with `K`
+positive definite — and `Spec/RitzNesting.lean` shows that the finalized `(m, n)` panel matrix IS the principal
+sub-matrix of the `(m', n')` one.  What remains outside: that LAPACK / ARPACK return these eigenvalues (numerical
+contract of C05/C06), and that the matrices handed to the solver are positive definite (hypothesis of the property).
 -/
 import CompmechVerif.Spec.Ritz
+import CompmechVerif.Spec.CourantFischer
+import CompmechVerif.Spec.RitzNesting
 import CompmechVerif.Gen.Panel.Plate
+import CompmechVerif.Props.C02
+import CompmechVerif.Props.C03
+import CompmechVerif.Props.C04
 import Mathlib.Tactic.Ring
 import Mathlib.Tactic.Linarith
+import Mathlib.Tactic.FinCases
 
 namespace Compmech.Ritz.C15
 open Compmech.Ritz
@@ -75,5 +88,284 @@ theorem minmax_monotone (R : E → EReal) (k : ℕ) {V V' : Submodule ℝ E} (h 
 theorem minmax_chain (R : E → EReal) (k : ℕ) (V : ℕ → Submodule ℝ E) (hV : Monotone V) :
     Antitone fun s => minmax R k (V s) :=
   fun _ _ hab => minmax_monotone R k (hV hab)
+
+/-! ### Courant–Fischer proved: the eigenvalues ARE the min–max values
+
+Vocabulary (`Spec/CourantFischer.lean`): `ascEigenvalues hA k` — the `k`-th smallest (0-based, with multiplicity)
+eigenvalue of the real symmetric matrix `A`, taken from Mathlib's spectral theorem; `genEigenvalues hK hM k` — the
+same for the pencil `K v = λ M v` (`K` symmetric, `M` positive definite; `Matrix.PosDef M` is "symmetric and
+`0 < vᵀ M v` for `v ≠ 0`", `Matrix.posDef_iff_dotProduct_mulVec`); `bucklingMultiplier hKG hK k` — the `k`-th smallest
+positive `λ` with `(K + λ KG) v = 0`, `K` positive definite; `pencilRayleigh K M v = (vᵀKv)/(vᵀMv)`. -/
+
+section CourantFischer
+
+open Matrix
+
+variable {N N' : ℕ}
+
+/-- The sorted eigenvalues of a real symmetric matrix are the min–max values `Spec/Ritz.minmax` defines: `λ_k` is the
+infimum over the `(k+1)`-dimensional subspaces of the supremum of the Rayleigh quotient `(vᵀAv)/(vᵀv)` over their
+non-zero vectors.  (Courant–Fischer, formerly assumed.) -/
+theorem eigenvalues_eq_minmax {A : Matrix (Fin N) (Fin N) ℝ} (hA : A.IsHermitian) (k : Fin N) :
+    ((ascEigenvalues hA k : ℝ) : EReal) = minmax (pencilRayleigh A 1) ((k : ℕ) + 1) ⊤ :=
+  (minmax_eq_ascEigenvalues hA k).symm
+
+/-- The two halves in elementary form: a `(k+1)`-dimensional subspace on which `vᵀAv ≤ λ_k vᵀv`, and in every
+`(k+1)`-dimensional subspace a non-zero vector with `vᵀAv ≥ λ_k vᵀv`. -/
+theorem eigenvalues_minmax_halves {A : Matrix (Fin N) (Fin N) ℝ} (hA : A.IsHermitian) (k : Fin N) :
+    (∃ W : Submodule ℝ (Fin N → ℝ), Module.finrank ℝ W = (k : ℕ) + 1 ∧
+        ∀ v ∈ W, v ⬝ᵥ A *ᵥ v ≤ ascEigenvalues hA k * (v ⬝ᵥ v)) ∧
+      ∀ W : Submodule ℝ (Fin N → ℝ), Module.finrank ℝ W = (k : ℕ) + 1 →
+        ∃ v ∈ W, v ≠ 0 ∧ ascEigenvalues hA k * (v ⬝ᵥ v) ≤ v ⬝ᵥ A *ᵥ v :=
+  ⟨exists_subspace_quad_le hA k, exists_vector_quad_ge hA k⟩
+
+/-- The ascending list is the spectrum: it is sorted, each member has an eigenvector, and every eigenvalue (of any
+non-zero eigenvector) is a member — so it is what a correct symmetric eigensolver returns, sorted. -/
+theorem eigenvalues_are_the_spectrum {A : Matrix (Fin N) (Fin N) ℝ} (hA : A.IsHermitian) :
+    Monotone (ascEigenvalues hA) ∧
+      (∀ k, ∃ v : Fin N → ℝ, v ≠ 0 ∧ A *ᵥ v = ascEigenvalues hA k • v) ∧
+      ∀ (μ : ℝ) (v : Fin N → ℝ), v ≠ 0 → A *ᵥ v = μ • v → ∃ k, ascEigenvalues hA k = μ :=
+  ⟨ascEigenvalues_monotone hA, ascEigenvalues_exists_eigenvector hA,
+    fun _ _ hv h => exists_ascEigenvalues_eq_of_eigenvector hA hv h⟩
+
+/-- Cauchy interlacing, the side C15 needs: the `k`-th smallest eigenvalue of a real symmetric matrix does not exceed
+the `k`-th smallest eigenvalue of any of its principal sub-matrices. -/
+theorem cauchy_interlacing_lower {A : Matrix (Fin N') (Fin N') ℝ} (hA : A.IsHermitian) {e : Fin N → Fin N'}
+    (he : Function.Injective e) (k : Fin N) :
+    ascEigenvalues hA (Fin.castLE (le_of_injective he) k) ≤ ascEigenvalues (hA.submatrix e) k :=
+  ascEigenvalues_le_submatrix hA he (hA.submatrix e) k
+
+/-- The same for the generalised pencil `K v = λ M v`, `M` positive definite: the sorted generalised eigenvalues are
+the min–max values of `(vᵀKv)/(vᵀMv)`. -/
+theorem pencil_eigenvalues_eq_minmax {K M : Matrix (Fin N) (Fin N) ℝ} (hK : K.IsHermitian) (hM : M.PosDef)
+    (k : Fin N) :
+    ((genEigenvalues hK hM k : ℝ) : EReal) = minmax (pencilRayleigh K M) ((k : ℕ) + 1) ⊤ :=
+  (minmax_eq_genEigenvalues hK hM k).symm
+
+/-- The generalised eigenvalues are the solutions of the pencil equation: sorted, each with a mode `K v = λ_k M v`,
+`v ≠ 0`, and every `μ` with `K v = μ M v` for some `v ≠ 0` is in the list; with `M = 1` they are the ordinary ones. -/
+theorem pencil_eigenvalues_are_the_spectrum {K M : Matrix (Fin N) (Fin N) ℝ} (hK : K.IsHermitian)
+    (hM : M.PosDef) :
+    Monotone (genEigenvalues hK hM) ∧
+      (∀ k, ∃ v : Fin N → ℝ, v ≠ 0 ∧ K *ᵥ v = genEigenvalues hK hM k • M *ᵥ v) ∧
+      (∀ (μ : ℝ) (v : Fin N → ℝ), v ≠ 0 → K *ᵥ v = μ • M *ᵥ v → ∃ k, genEigenvalues hK hM k = μ) ∧
+      ∀ k, genEigenvalues hK (PosDef.one : (1 : Matrix (Fin N) (Fin N) ℝ).PosDef) k = ascEigenvalues hK k :=
+  ⟨genEigenvalues_monotone hK hM, genEigenvalues_exists_eigenvector hK hM,
+    fun _ _ hv h => exists_genEigenvalues_eq_of_eigenvector hK hM hv h, genEigenvalues_one hK⟩
+
+/-- One-sided interlacing for the generalised pencil: the `k`-th smallest generalised eigenvalue of `(K, M)` does not
+exceed that of a principal sub-pencil (which is again symmetric / positive definite). -/
+theorem pencil_interlacing_lower {K M : Matrix (Fin N') (Fin N') ℝ} (hK : K.IsHermitian) (hM : M.PosDef)
+    {e : Fin N → Fin N'} (he : Function.Injective e) (k : Fin N) :
+    genEigenvalues hK hM (Fin.castLE (le_of_injective he) k)
+      ≤ genEigenvalues (hK.submatrix e) (hM.submatrix he) k :=
+  genEigenvalues_le_submatrix hK hM he (hK.submatrix e) (hM.submatrix he) k
+
+/-- Buckling pencil `(K + λ KG) v = 0`, `K` positive definite: the positive multipliers are `−1/ν` for the negative
+generalised eigenvalues `ν` of `KG v = ν K v`; `bucklingMultiplier … k` (defined when `ν_k < 0`) is positive, has a
+buckling mode, the list is ascending, and every positive multiplier occurs in it. -/
+theorem buckling_multipliers_are_the_spectrum {K KG : Matrix (Fin N) (Fin N) ℝ} (hKG : KG.IsHermitian)
+    (hK : K.PosDef) :
+    (∀ k, genEigenvalues hKG hK k < 0 →
+        0 < bucklingMultiplier hKG hK k ∧
+          (∃ v : Fin N → ℝ, v ≠ 0 ∧ (K + bucklingMultiplier hKG hK k • KG) *ᵥ v = 0) ∧
+          ∀ i, i ≤ k → bucklingMultiplier hKG hK i ≤ bucklingMultiplier hKG hK k) ∧
+      ∀ (lam : ℝ) (v : Fin N → ℝ), 0 < lam → v ≠ 0 → (K + lam • KG) *ᵥ v = 0 →
+        ∃ k, genEigenvalues hKG hK k < 0 ∧ bucklingMultiplier hKG hK k = lam :=
+  ⟨fun k hneg => ⟨bucklingMultiplier_pos hKG hK k hneg, bucklingMultiplier_exists_mode hKG hK k hneg,
+      fun _ hik => bucklingMultiplier_mono hKG hK hik hneg⟩,
+    fun _ _ hlam hv h => exists_bucklingMultiplier_eq hKG hK hlam hv h⟩
+
+/-- Buckling multipliers of a principal sub-pencil: if the sub-pencil has at least `k+1` positive multipliers then so
+has the full pencil, and the `k`-th smallest positive multiplier of the full pencil is no larger. -/
+theorem buckling_interlacing_lower {K KG : Matrix (Fin N') (Fin N') ℝ} (hKG : KG.IsHermitian) (hK : K.PosDef)
+    {e : Fin N → Fin N'} (he : Function.Injective e) (k : Fin N)
+    (hneg : genEigenvalues (hKG.submatrix e) (hK.submatrix he) k < 0) :
+    genEigenvalues hKG hK (Fin.castLE (le_of_injective he) k) < 0 ∧
+      bucklingMultiplier hKG hK (Fin.castLE (le_of_injective he) k)
+        ≤ bucklingMultiplier (hKG.submatrix e) (hK.submatrix he) k :=
+  bucklingMultiplier_le_submatrix hKG hK he (hKG.submatrix e) (hK.submatrix he) k hneg
+
+end CourantFischer
+
+/-! ### the panel matrices: nesting and monotone Ritz eigenvalues
+
+`panelMatrix num m n entry base I` (`Spec/RitzNesting.lean`) is the finalized COO matrix of the modelled loop nest with
+the regenerated entry expressions (`Spec/WholeMatrix.panelCoo`, placed at `row0 = 0`) as a real square matrix of order
+`num·m·n`; `embedIndex num hm hn` moves the amplitude `(α, i, j)` from `num·(j·m + i) + α` to `num·(j·m' + i) + α`. -/
+
+section Panels
+
+open Matrix Compmech.Panel Compmech.Gen
+
+/-- Nesting, now a statement about the whole finalized matrices: for `m ≤ m'`, `n ≤ n'` the `(m, n)` matrix of a kernel
+whose entries are symmetric under exchange of the two basis functions is the principal sub-matrix of the `(m', n')`
+matrix along the (injective) index embedding. -/
+theorem nested_principal_submatrix (num : ℕ) {m n m' n' : ℕ} (hm : m ≤ m') (hn : n ≤ n')
+    (entry : Fin num → Fin num → PCtx ℝ → ℝ) (base : PCtx ℝ) (I : Integrals ℝ) (hI : I.Comm)
+    (hsym : ∀ ro co i k j l, entry ro co (ctxAt base I i k j l) = entry co ro (ctxAt base I i k j l).swap) :
+    Function.Injective (embedIndex num hm hn) ∧
+      panelMatrix num m n entry base I =
+        (panelMatrix num m' n' entry base I).submatrix (embedIndex num hm hn) (embedIndex num hm hn) :=
+  ⟨embedIndex_injective num hm hn, panelMatrix_nested num hm hn entry base I hI hsym⟩
+
+/-- Standard symmetric problem on the panel matrices, WITHOUT the Courant–Fischer assumption: the `k`-th smallest
+eigenvalue of the `(m, n)` matrix is at least the `k`-th smallest eigenvalue of the `(m', n')` matrix. -/
+theorem ritz_eigenvalues_monotone (num : ℕ) {m n m' n' : ℕ} (hm : m ≤ m') (hn : n ≤ n')
+    (entry : Fin num → Fin num → PCtx ℝ → ℝ) (base : PCtx ℝ) (I : Integrals ℝ) (hI : I.Comm)
+    (hsym : ∀ ro co i k j l, entry ro co (ctxAt base I i k j l) = entry co ro (ctxAt base I i k j l).swap)
+    (k : Fin (num * m * n)) :
+    ascEigenvalues (panelMatrix_isHermitian num m' n' entry base I) (Fin.castLE (size_le num hm hn) k)
+      ≤ ascEigenvalues (panelMatrix_isHermitian num m n entry base I) k := by
+  have h := cauchy_interlacing_lower (panelMatrix_isHermitian num m' n' entry base I)
+    (embedIndex_injective num hm hn) k
+  rwa [ascEigenvalues_congr (panelMatrix_nested num hm hn entry base I hI hsym).symm _
+    (panelMatrix_isHermitian num m n entry base I)] at h
+
+/-- Natural frequencies (`K v = ω² M v`), any two symmetric kernels, mass matrix of the larger model positive definite:
+the `k`-th smallest `ω²` of the `(m, n)` model is at least that of the `(m', n')` model. -/
+theorem ritz_frequencies_monotone (num : ℕ) {m n m' n' : ℕ} (hm : m ≤ m') (hn : n ≤ n')
+    (entryK entryM : Fin num → Fin num → PCtx ℝ → ℝ) (base : PCtx ℝ) (I : Integrals ℝ) (hI : I.Comm)
+    (hsymK : ∀ ro co i k j l, entryK ro co (ctxAt base I i k j l) = entryK co ro (ctxAt base I i k j l).swap)
+    (hsymM : ∀ ro co i k j l, entryM ro co (ctxAt base I i k j l) = entryM co ro (ctxAt base I i k j l).swap)
+    (hMpd : (panelMatrix num m' n' entryM base I).PosDef) (k : Fin (num * m * n)) :
+    genEigenvalues (panelMatrix_isHermitian num m' n' entryK base I) hMpd (Fin.castLE (size_le num hm hn) k)
+      ≤ genEigenvalues (panelMatrix_isHermitian num m n entryK base I)
+          (panelMatrix_posDef_of_le num hm hn entryM base I hI hsymM hMpd) k := by
+  have h := pencil_interlacing_lower (panelMatrix_isHermitian num m' n' entryK base I) hMpd
+    (embedIndex_injective num hm hn) k
+  rwa [genEigenvalues_congr (panelMatrix_nested num hm hn entryK base I hI hsymK).symm
+    (panelMatrix_nested num hm hn entryM base I hI hsymM).symm _ _
+    (panelMatrix_isHermitian num m n entryK base I)
+    (panelMatrix_posDef_of_le num hm hn entryM base I hI hsymM hMpd)] at h
+
+/-- Linear buckling (`(K + λ KG) v = 0`), constitutive stiffness of the larger model positive definite: if the `(m, n)`
+model has at least `k+1` positive multipliers, so has the `(m', n')` model, and its `k`-th smallest positive multiplier
+is no larger. -/
+theorem ritz_buckling_monotone (num : ℕ) {m n m' n' : ℕ} (hm : m ≤ m') (hn : n ≤ n')
+    (entryK entryG : Fin num → Fin num → PCtx ℝ → ℝ) (base : PCtx ℝ) (I : Integrals ℝ) (hI : I.Comm)
+    (hsymK : ∀ ro co i k j l, entryK ro co (ctxAt base I i k j l) = entryK co ro (ctxAt base I i k j l).swap)
+    (hsymG : ∀ ro co i k j l, entryG ro co (ctxAt base I i k j l) = entryG co ro (ctxAt base I i k j l).swap)
+    (hKpd : (panelMatrix num m' n' entryK base I).PosDef) (k : Fin (num * m * n))
+    (hneg : genEigenvalues (panelMatrix_isHermitian num m n entryG base I)
+      (panelMatrix_posDef_of_le num hm hn entryK base I hI hsymK hKpd) k < 0) :
+    genEigenvalues (panelMatrix_isHermitian num m' n' entryG base I) hKpd (Fin.castLE (size_le num hm hn) k) < 0 ∧
+      bucklingMultiplier (panelMatrix_isHermitian num m' n' entryG base I) hKpd (Fin.castLE (size_le num hm hn) k)
+        ≤ bucklingMultiplier (panelMatrix_isHermitian num m n entryG base I)
+            (panelMatrix_posDef_of_le num hm hn entryK base I hI hsymK hKpd) k := by
+  have hc := genEigenvalues_congr (panelMatrix_nested num hm hn entryG base I hI hsymG)
+    (panelMatrix_nested num hm hn entryK base I hI hsymK)
+    (panelMatrix_isHermitian num m n entryG base I)
+    (panelMatrix_posDef_of_le num hm hn entryK base I hI hsymK hKpd)
+    ((panelMatrix_isHermitian num m' n' entryG base I).submatrix (embedIndex num hm hn))
+    (hKpd.submatrix (embedIndex_injective num hm hn)) k
+  have h := buckling_interlacing_lower (panelMatrix_isHermitian num m' n' entryG base I) hKpd
+    (embedIndex_injective num hm hn) k (hc ▸ hneg)
+  refine ⟨h.1, ?_⟩
+  have h2 := h.2
+  unfold bucklingMultiplier at h2 ⊢
+  rwa [← hc] at h2
+
+/-- Flat plate (`plate_clt_donnell_bardell`), natural frequencies, on the REGENERATED kernels `fk0`, `fkM`: adding terms
+never raises any `ω²_k` — the symmetry hypotheses are discharged by C02 `k0_entry_symm_plate` and C04 `kM_symm_plate`. -/
+theorem plate_frequencies_monotone {m n m' n' : ℕ} (hm : m ≤ m') (hn : n ≤ n') (base : PCtx ℝ) (I : Integrals ℝ)
+    (hI : I.Comm) (ha : base.a ≠ 0) (hb : base.b ≠ 0) (hF : IsABD base.F)
+    (hMpd : (panelMatrix 3 m' n' Plate.fkM.entry base I).PosDef) (k : Fin (3 * m * n)) :
+    genEigenvalues (panelMatrix_isHermitian 3 m' n' Plate.fk0.entry base I) hMpd (Fin.castLE (size_le 3 hm hn) k)
+      ≤ genEigenvalues (panelMatrix_isHermitian 3 m n Plate.fk0.entry base I)
+          (panelMatrix_posDef_of_le 3 hm hn Plate.fkM.entry base I hI
+            (fun ro co i k j l => Compmech.Panel.C04.kM_symm_plate (ctxAt base I i k j l) ha hb ro co) hMpd) k :=
+  ritz_frequencies_monotone 3 hm hn Plate.fk0.entry Plate.fkM.entry base I hI
+    (fun ro co i k j l => Compmech.Panel.C02.k0_entry_symm_plate (ctxAt base I i k j l) ha hb hF ro co)
+    (fun ro co i k j l => Compmech.Panel.C04.kM_symm_plate (ctxAt base I i k j l) ha hb ro co) hMpd k
+
+/-- Flat plate, linear buckling under constant pre-stress, on the REGENERATED kernels `fk0`, `fkG0`. -/
+theorem plate_buckling_monotone {m n m' n' : ℕ} (hm : m ≤ m') (hn : n ≤ n') (base : PCtx ℝ) (I : Integrals ℝ)
+    (hI : I.Comm) (ha : base.a ≠ 0) (hb : base.b ≠ 0) (hF : IsABD base.F)
+    (hKpd : (panelMatrix 3 m' n' Plate.fk0.entry base I).PosDef) (k : Fin (3 * m * n))
+    (hneg : genEigenvalues (panelMatrix_isHermitian 3 m n Plate.fkG0.entry base I)
+      (panelMatrix_posDef_of_le 3 hm hn Plate.fk0.entry base I hI
+        (fun ro co i k j l => Compmech.Panel.C02.k0_entry_symm_plate (ctxAt base I i k j l) ha hb hF ro co) hKpd) k < 0) :
+    genEigenvalues (panelMatrix_isHermitian 3 m' n' Plate.fkG0.entry base I) hKpd (Fin.castLE (size_le 3 hm hn) k) < 0 ∧
+      bucklingMultiplier (panelMatrix_isHermitian 3 m' n' Plate.fkG0.entry base I) hKpd
+          (Fin.castLE (size_le 3 hm hn) k)
+        ≤ bucklingMultiplier (panelMatrix_isHermitian 3 m n Plate.fkG0.entry base I)
+            (panelMatrix_posDef_of_le 3 hm hn Plate.fk0.entry base I hI
+              (fun ro co i k j l => Compmech.Panel.C02.k0_entry_symm_plate (ctxAt base I i k j l) ha hb hF ro co)
+              hKpd) k :=
+  ritz_buckling_monotone 3 hm hn Plate.fk0.entry Plate.fkG0.entry base I hI
+    (fun ro co i k j l => Compmech.Panel.C02.k0_entry_symm_plate (ctxAt base I i k j l) ha hb hF ro co)
+    (fun ro co i k j l => Compmech.Panel.C03.kG0_symm_plate (ctxAt base I i k j l) ha hb ro co) hKpd k hneg
+
+end Panels
+
+/-! ### Non-vacuity: concrete instances -/
+
+section NonVacuity
+
+open Matrix
+
+/-- the 3×3 second-difference matrix and its leading 2×2 principal sub-matrix: both are symmetric, the index map is
+injective, and the theorems give numbers — the 2×2 block has eigenvalues exactly `1` (mode `(1, 1)`) and `3` (mode
+`(1, −1)`), hence the two smallest eigenvalues of the 3×3 matrix (`2 − √2`, `2`) are `≤ 1` and `≤ 3` -/
+example : ∃ (hA : (!![2, -1, 0; -1, 2, -1; 0, -1, 2] : Matrix (Fin 3) (Fin 3) ℝ).IsHermitian)
+    (hB : (!![2, -1; -1, 2] : Matrix (Fin 2) (Fin 2) ℝ).IsHermitian),
+    ascEigenvalues hB 0 = 1 ∧ ascEigenvalues hB 1 = 3 ∧
+      ascEigenvalues hA 0 ≤ 1 ∧ ascEigenvalues hA 1 ≤ 3 := by
+  have hA : (!![2, -1, 0; -1, 2, -1; 0, -1, 2] : Matrix (Fin 3) (Fin 3) ℝ).IsHermitian :=
+    IsHermitian.ext fun i j => by fin_cases i <;> fin_cases j <;> simp
+  have hB : (!![2, -1; -1, 2] : Matrix (Fin 2) (Fin 2) ℝ).IsHermitian :=
+    IsHermitian.ext fun i j => by fin_cases i <;> fin_cases j <;> simp
+  have he : Function.Injective (Fin.castLE (by norm_num : 2 ≤ 3)) := Fin.castLE_injective _
+  have hsub : (!![2, -1; -1, 2] : Matrix (Fin 2) (Fin 2) ℝ) =
+      (!![2, -1, 0; -1, 2, -1; 0, -1, 2] : Matrix (Fin 3) (Fin 3) ℝ).submatrix
+        (Fin.castLE (by norm_num : 2 ≤ 3)) (Fin.castLE (by norm_num : 2 ≤ 3)) := by
+    ext i j; fin_cases i <;> fin_cases j <;> simp [Fin.castLE]
+  -- the spectrum of the 2×2 block
+  obtain ⟨k1, hk1⟩ := exists_ascEigenvalues_eq_of_eigenvector hB (μ := 1) (v := ![1, 1])
+    (by intro h; have := congrFun h 0; simp at this)
+    (by ext i; fin_cases i <;> simp [mulVec, dotProduct, Fin.sum_univ_two] <;> norm_num)
+  obtain ⟨k3, hk3⟩ := exists_ascEigenvalues_eq_of_eigenvector hB (μ := 3) (v := ![1, -1])
+    (by intro h; have := congrFun h 0; simp at this)
+    (by ext i; fin_cases i <;> simp [mulVec, dotProduct, Fin.sum_univ_two] <;> norm_num)
+  have hmono := ascEigenvalues_monotone hB
+  have h0 : ascEigenvalues hB 0 = 1 ∧ ascEigenvalues hB 1 = 3 := by
+    fin_cases k1 <;> fin_cases k3 <;> simp only [Fin.zero_eta, Fin.mk_one, Fin.isValue] at hk1 hk3
+    · linarith
+    · exact ⟨hk1, hk3⟩
+    · have := hmono (show (0 : Fin 2) ≤ 1 by decide); linarith
+    · linarith
+  have hint := fun k => cauchy_interlacing_lower hA he k
+  have hc := fun k => ascEigenvalues_congr hsub hB (hA.submatrix _) k
+  refine ⟨hA, hB, h0.1, h0.2, ?_, ?_⟩
+  · have := hint 0; rw [← hc 0, h0.1] at this; exact this
+  · have := hint 1; rw [← hc 1, h0.2] at this; exact this
+
+/-- generalised pencil: the same stiffness with the lumped mass matrix `diag(1, 2, 3)` (positive definite) and the
+leading 2×2 sub-pencil -/
+example : ∃ (hK : (!![2, -1, 0; -1, 2, -1; 0, -1, 2] : Matrix (Fin 3) (Fin 3) ℝ).IsHermitian)
+    (hM : (diagonal ![1, 2, 3] : Matrix (Fin 3) (Fin 3) ℝ).PosDef)
+    (he : Function.Injective (Fin.castLE (by norm_num : 2 ≤ 3))), ∀ k : Fin 2,
+      genEigenvalues hK hM (Fin.castLE (le_of_injective he) k)
+        ≤ genEigenvalues (hK.submatrix (Fin.castLE (by norm_num : 2 ≤ 3))) (hM.submatrix he) k := by
+  have hK : (!![2, -1, 0; -1, 2, -1; 0, -1, 2] : Matrix (Fin 3) (Fin 3) ℝ).IsHermitian :=
+    IsHermitian.ext fun i j => by fin_cases i <;> fin_cases j <;> simp
+  have hM : (diagonal ![1, 2, 3] : Matrix (Fin 3) (Fin 3) ℝ).PosDef :=
+    PosDef.diagonal fun i => by fin_cases i <;> simp
+  exact ⟨hK, hM, Fin.castLE_injective _, fun k => pencil_interlacing_lower hK hM (Fin.castLE_injective _) k⟩
+
+open Compmech.Panel Compmech.Gen Compmech.Panel.PSDExample in
+/-- the regenerated plate stiffness kernel on the instance of `Spec/PSDExample.lean` (`a = b = 2`, identity laminate
+matrix, integrals of monomials): going from `(1, 1)` to `(2, 3)` terms lowers (never raises) each of the three
+eigenvalues of the `(1, 1)` matrix -/
+example (k : Fin (3 * 1 * 1)) :
+    ascEigenvalues (panelMatrix_isHermitian 3 2 3 Plate.fk0.entry unitBase monoI)
+        (Fin.castLE (size_le 3 (by norm_num : 1 ≤ 2) (by norm_num : 1 ≤ 3)) k)
+      ≤ ascEigenvalues (panelMatrix_isHermitian 3 1 1 Plate.fk0.entry unitBase monoI) k :=
+  ritz_eigenvalues_monotone 3 (by norm_num) (by norm_num) Plate.fk0.entry unitBase monoI monoI_comm
+    (fun ro co i k j l => Compmech.Panel.C02.k0_entry_symm_plate (ctxAt unitBase monoI i k j l)
+      (show unitBase.a ≠ 0 by norm_num [unitBase]) (show unitBase.b ≠ 0 by norm_num [unitBase]) unitF_isABD ro co) k
+
+end NonVacuity
 
 end Compmech.Ritz.C15
